@@ -2352,14 +2352,19 @@ impl<I: SignedInteger> Subframe<I> {
             for split in coefficients.len()..channel.len() {
                 let (predicted, residuals) = channel.split_at_mut(split);
 
-                residuals[0] += I::from_i64(
-                    predicted
+                // wrapping arithmetic: on valid streams nothing overflows once the
+                // result is truncated to the sample type, and on corrupt
+                // streams the outcome must be garbage, not an overflow panic
+                residuals[0] = I::from_i64(
+                    (predicted
                         .iter()
                         .rev()
                         .zip(coefficients)
-                        .map(|(x, y)| (*x).into() * y)
-                        .sum::<i64>()
-                        >> qlp_shift,
+                        .fold(0i64, |acc, (x, y)| {
+                            acc.wrapping_add((*x).into().wrapping_mul(*y))
+                        })
+                        >> qlp_shift)
+                        .wrapping_add(residuals[0].into()),
                 );
             }
         }
